@@ -352,6 +352,13 @@ def check_beam(case, rec):
               f"tip translation in own axes {ul} vs axis-aligned member {ul0}", **sig)
     rec.close(rl - rl0, scale_r, 1e-7, "beam_own_axes_r", f"{kind} {spec['elemType']} {dim}D d={spec['d']}: tip rotation in own axes "
               f"{rl} vs axis-aligned member {rl0}", **sig)
+    if not dyn and not any(q):
+        # statics of a cantilever under tip loads only: the shear forces are the transverse tip forces all along the member
+        for nm, val in (("Ty", F[1]), ("Tz", F[2])):
+            if nm in forces:
+                rec.close(np.abs(forces[nm]) - abs(val), fscale, 1e-6, "beam_shear_closed_form",
+                          f"{kind} {spec['elemType']} {dim}D d={spec['d']}: |Result('{nm}')| = {np.abs(forces[nm])[:3]} along a cantilever whose "
+                          f"transverse tip force is {val}", **dict(sig, name=nm))
     if kind == "eb" and not dyn:
         A, Iy, Iz = gb.section_props(spec["b"], spec["h"])
         E = spec["E"]
